@@ -55,14 +55,17 @@ UnitNamed(c, nm) == CHOOSE u \in Units(c) : u.name = nm
 HasHandler(c, id) == \E h \in Handlers(c) : h.id = id
 Handler(c, id) == CHOOSE h \in Handlers(c) : h.id = id
 
-Applies(h, u) == h.kind \in {"global", "undes"} \/ (h.kind = "des" /\ \E i \in 1..Len(h.paths) : h.paths[i] = u.path)
-MayApply(h, u) == Applies(h, u) \/ (h.kind = "des" /\ \E i \in 1..Len(h.paths) : IsPrefix(h.paths[i], u.path))
+\* u.fresh: the unit runs under a callback scope opened with callbacks.InitCallbacks(ctx, info) without handlers inside a node body:
+\* only global handlers apply to it, nothing of the enclosing run
+Applies(h, u) == IF u.fresh THEN h.kind = "global"
+                 ELSE h.kind \in {"global", "undes"} \/ (h.kind = "des" /\ \E i \in 1..Len(h.paths) : h.paths[i] = u.path)
+MayApply(h, u) == Applies(h, u) \/ (~u.fresh /\ h.kind = "des" /\ \E i \in 1..Len(h.paths) : IsPrefix(h.paths[i], u.path))
 
 StartT == {"start", "start_s"}
 EndT == {"end", "end_s", "error"}
 Key(h, u) == h \o "|" \o u
 NoRet == [seen |-> FALSE, err |-> FALSE, out |-> "", outs |-> <<>>]
-Idle == [id |-> "", c |-> [handlers |-> <<>>, units |-> <<>>, ends |-> <<>>], bad |-> "", st |-> <<>>, ins |-> <<>>, outs |-> <<>>,
+Idle == [id |-> "", c |-> [handlers |-> <<>>, units |-> <<>>, ends |-> <<>>, reject |-> "", rejecttop |-> FALSE], bad |-> "", st |-> <<>>, ins |-> <<>>, outs |-> <<>>,
          data |-> {}, ret |-> NoRet]
 Bad(S, r) == [S EXCEPT !.bad = r]
 
@@ -113,11 +116,14 @@ CbData(S, e) ==
 
 \* ---------------------------------------------------------------- completeness at the end of the case
 \* a nested graph ran if one of its nodes ran, or if harness-owned code inside it (the condition of a branch on its START) logged `enter`
+\* c.reject = a nested graph (fed by START of the top graph) whose run is rejected for its call options: it did run, and failed
 Ran(S, u) == \/ u.u \in DOMAIN S.ins
+             \/ (u.u = S.c.reject /\ u.parent # "" /\ \E t \in Units(S.c) : t.parent = "" /\ t.u \in DOMAIN S.ins /\ ~S.c.rejecttop)
              \/ (u.graph /\ u.parent # "" /\ \E v \in Units(S.c) : v.parent = u.u /\ v.u \in DOMAIN S.ins)
 Failed(S, u) == IF u.parent = "" THEN S.ret.err
                 ELSE IF u.graph THEN \/ \E v \in Units(S.c) : v.parent = u.u /\ v.u \in DOMAIN S.outs /\ S.outs[v.u].fail
                                      \/ (u.u \in DOMAIN S.outs /\ S.outs[u.u].fail)     \* the condition of its START branch failed
+                                     \/ u.u = S.c.reject
                 ELSE u.u \in DOMAIN S.outs /\ S.outs[u.u].fail
 DataOK(S, d) ==
   IF ~HasUnitNamed(S.c, d.name) THEN FALSE
